@@ -60,6 +60,19 @@ def step (_ : Unit) (line : String) : Unit × String :=
             ((), s!"err={showErr e} trace={showTrace r.trace} ver={db.version} data={showData db.data} toapply={joinWith "," ((versionsToApply c vs).map (toString ·.number))} latest={latest vs}")
       | _, _ => ((), "bad-op")
     | _, _, _, _, _ => ((), "bad-op")
+  | "wopen" :: rest =>
+    -- wallet.Open: tx manager (versions 1..txlatest, only the last carries a data-changing migration here) and
+    -- address manager (versions ..addrlatest) upgraded in ONE transaction.
+    match (kv rest "txcur").bind String.toNat?, (kv rest "txlatest").bind String.toNat?,
+          (kv rest "addrcur").bind String.toNat?, (kv rest "addrlatest").bind String.toNat? with
+    | some tc, some tl, some ac, some al =>
+      let txVs : List Version := (List.range tl).map fun i => ⟨i + 1, if i + 1 == tl then some 1 else none⟩
+      let adVs : List Version := (List.range al).map fun i => ⟨i + 1, some (100 + i)⟩
+      let (dbs, e) := upgradeManyInTx [(⟨tc, []⟩, txVs), (⟨ac, []⟩, adVs)] (fun _ => false)
+      match dbs with
+      | [t, a] => ((), s!"err={showErr e} txver={t.version} addrver={a.version} txdata={if t.data.isEmpty then 0 else 1}")
+      | _ => ((), "bad-op")
+    | _, _, _, _ => ((), "bad-op")
   | _ => ((), "bad-op")
 
 def run (i o : IO.FS.Stream) : IO Unit := loop i o () step
